@@ -9,4 +9,16 @@ PART = {
     rule="c04: after the batch reader reports an error or the end, the child calls carquet_batch_reader_next twice more (valid calls); every BYTE_ARRAY value handed out by a column reader is read byte by byte and must have a non-negative length; directed BYTE_ARRAY dictionaries whose last entry announces 2^32 - k bytes (dicthugelen)",
     text="(F95 / F96) the batch reader can be asked again after a failed call: for every state with a projected column the repaired carquet_batch_reader_next returns a status and never dereferences a missing column reader (C04_batch_next_never_ub; the pinned code did, C04_regression_F96); every BYTE_ARRAY dictionary entry the repaired scan accepts lies inside the page (C04_dict_scan_entries_in_page; the pinned 32-bit sum accepted entries announcing 2^32 - k bytes, C04_regression_F95)",
   ),
+  "C05": dict(
+    imports=["Carquet.Properties.C05.BrokenFlush"],
+    obligations=["Carquet.Properties.C05.BrokenFlush.C05_failed_flush_poisons_close", "Carquet.Properties.C05.BrokenFlush.C05_regression_F97"],
+    components=["c05alloc"],
+    fidelity={"Properties.C05.BrokenFlush (F97): status flow of flush_row_group / new_row_group / close with respect to writer->broken": "structural (what an attempt to finish a row group does is a parameter)"},
+    text="(F97) after a row-group flush that failed half-way no later flush and no close reports OK (C05_failed_flush_poisons_close; the pinned writer repeated the flush and reported an invalid file complete: C05_regression_F97, found by the c05alloc component)",
+    rule="c05alloc: a well-formed history executed with ONE allocation failure inside a row-group flush or the close (every k-th request of those calls; quick: every (K/25)-th), a failed carquet_writer_new_row_group is called again; whenever every call in the end and close said OK the file goes to the independent reader (`wrspec`)",
+  ),
+  "C17": dict(
+    imports=[], obligations=[], components=["refread"], pregen={"refread": "reffiles"},
+    rule="refread (shared with C06): the reference files with nested schemas (repeated / optional groups to depth 3) are read column by column through carquet_reader_get_column in three modes: every leaf the schema lists must be readable as a column and deliver the stored levels",
+  ),
 }
